@@ -193,6 +193,13 @@ pub fn c13(tier: Tier) -> i32 {
                                         }
                                         k += 1;
                                     }
+                                    // shrinking the set's buffer changes nothing that can be observed, and the set stays usable
+                                    let before: Vec<_> = set.into_iter().map(|r| r.to_owned_record()).collect();
+                                    set.shrink_buffer_to_fit();
+                                    let after: Vec<_> = set.into_iter().map(|r| r.to_owned_record()).collect();
+                                    if before != after || before.len() != set.len() {
+                                        problems.push("record set: records differ after shrink_buffer_to_fit()".to_string());
+                                    }
                                     if set.is_empty() {
                                         break;
                                     }
@@ -241,6 +248,13 @@ pub fn c13(tier: Tier) -> i32 {
                                             problems.push(format!("record {} from a record set differs from the one returned by next()", k));
                                         }
                                         k += 1;
+                                    }
+                                    // shrinking the set's buffer changes nothing that can be observed, and the set stays usable
+                                    let before: Vec<_> = set.into_iter().map(|r| r.to_owned_record()).collect();
+                                    set.shrink_buffer_to_fit();
+                                    let after: Vec<_> = set.into_iter().map(|r| r.to_owned_record()).collect();
+                                    if before != after || before.len() != set.len() {
+                                        problems.push("record set: records differ after shrink_buffer_to_fit()".to_string());
                                     }
                                     if set.is_empty() {
                                         break;
@@ -304,7 +318,7 @@ pub fn c13(tier: Tier) -> i32 {
         Report {
             property: "C13".into(),
             tier: tier.name().into(),
-            rule: format!("every record of every input of [{}] in three instantiations of the data class (ASCII letters; non-UTF-8 / split multi-byte; TAB, VT, FF, ';' as data), every capacity 3..len+2 and 64 KiB, obtained via next(), to_owned_record(), read_record_set and read_record_set_exact(2|3): algebraic relations between head/seq/seq_lines/num_seq_lines/full_seq/owned_seq/id*/desc* and the owned copies; non-trivial = run with at least one record", names.join("; ")),
+            rule: format!("every record of every input of [{}] in three instantiations of the data class (ASCII letters; non-UTF-8 / split multi-byte; TAB, VT, FF, ';' as data), every capacity 3..len+2 and 64 KiB, obtained via next(), to_owned_record(), read_record_set (each set also after shrink_buffer_to_fit(), then reused) and read_record_set_exact(2|3): algebraic relations between head/seq/seq_lines/num_seq_lines/full_seq/owned_seq/id*/desc* and the owned copies; non-trivial = run with at least one record", names.join("; ")),
             exhaustive: true,
             assumptions: std_assumptions(),
             extra: json!({"states_note": STATES_NOTE}),
